@@ -453,10 +453,16 @@ class Machine:
         dv = np.array(op["dv"], float)
         if op["variant"] == "A":
             sv = self.obj.propagate(mkdate(t1))
-        else:
+        elif op["variant"] == "B":
             sv = self.obj.copy()
             t1 = 0
             _ = sv.infos.n, sv.infos.period  # derived quantities read before the change
+        else:
+            # C: the orbit has already been propagated (its propagator is bound to it) when it is changed
+            sv = self.obj.copy()
+            t1 = 0
+            sv.propagate(mkdate(op["t_us"]))
+            list(sv.iter(stop=timedelta(seconds=120), step=timedelta(seconds=60)))
         sv.form = "cartesian"
         sv.base[3:] += dv
         coords = np.array(sv.base, float)
@@ -468,7 +474,7 @@ class Machine:
         if not np.array_equal(got, ref):
             d = float(np.linalg.norm(got[:3] - ref[:3]))
             if d > 1e-6:
-                raise Violation("derived-state-stale", f"a state {'returned by propagate()' if op['variant'] == 'A' else 'whose .infos had been read'} "
+                raise Violation("derived-state-stale", f"a state {dict(A='returned by propagate()', B='whose .infos had been read', C='already propagated once')[op['variant']]} "
                                                        f"then changed in place by dv={dv.tolist()} propagates {d:.3g} m away from a freshly built "
                                                        f"orbit holding the same numbers")
         return ["kick:" + op["variant"]]
@@ -529,7 +535,7 @@ def op_strategy(draw, kind, h_us, span_us):
         return draw(go.uniform_int(-span_us, span_us)) if kind != "ephem" else draw(go.uniform_int(0, span_us))
 
     if name == "kick":
-        return dict(op=name, t_us=t(), t2_us=t(), variant=draw(st.sampled_from(["A", "B"])),
+        return dict(op=name, t_us=t(), t2_us=t(), variant=draw(st.sampled_from(["A", "B", "C"])),
                     dv=[round(draw(go.uniform(-50, 50)), 3) for _ in range(3)])
     if name in ("propagate", "rebind", "rebind_other"):
         return dict(op=name, t_us=t(), as_td=draw(st.booleans()))
@@ -621,7 +627,7 @@ def check(case):
     m = Machine(case)
     tags = m.run()
     kinds = {t for t in tags if t in ("propagate", "iter_range", "iter_dates", "iter_daterange", "ephem", "iter_listeners", "iter_own",
-                                       "rebind", "rebind_other", "partial_consume", "kick:A", "kick:B")}
+                                       "rebind", "rebind_other", "partial_consume", "kick:A", "kick:B", "kick:C")}
     # an op that failed as a listed known finding and after which the history went on also counts:
     # what follows it runs on objects that have been through a failing call
     special = {"backward", "step-not-dividing", "shorter-than-interp-order", "stop-off-grid", "known-finding-op"} & set(tags)
